@@ -157,4 +157,23 @@ fn main() {
         println!("F16: folder of the deleted keyspace still exists after its last handle was dropped = {}", path.exists());
         drop(b); drop(db); let _ = std::fs::remove_dir_all(dir);
     }
+    // S6: delete_keyspace through a stale handle of an already deleted keyspace whose name was re-created
+    {
+        let dir = std::path::PathBuf::from("/dev/shm/verif-scratch-s6");
+        let _ = std::fs::remove_dir_all(&dir);
+        {
+            let db = fjall::Database::builder(&dir).worker_threads_unchecked(0).open().unwrap();
+            let old = db.keyspace("a", KeyspaceCreateOptions::default).unwrap();
+            let stale = old.clone();
+            db.delete_keyspace(old).unwrap();
+            let new = db.keyspace("a", KeyspaceCreateOptions::default).unwrap();
+            new.insert("k", "v").unwrap();
+            let r = db.delete_keyspace(stale);
+            println!("S6: delete_keyspace(stale handle) -> {:?}; the re-created keyspace still answers get(k) = {:?}; keyspace_exists(a) = {}", r.is_ok(), new.get("k").unwrap().is_some(), db.keyspace_exists("a"));
+        }
+        let db = fjall::Database::builder(&dir).worker_threads_unchecked(0).open().unwrap();
+        println!("S6: after reopen keyspace_exists(a) = {}", db.keyspace_exists("a"));
+        if db.keyspace_exists("a") { let a = db.keyspace("a", KeyspaceCreateOptions::default).unwrap(); println!("S6: after reopen a.get(k) = {:?}", a.get("k").unwrap().is_some()); }
+        drop(db); let _ = std::fs::remove_dir_all(dir);
+    }
 }
